@@ -33,7 +33,7 @@ SEQ_STREAM = "zvt::sequences::Sequence::into_stream"
 
 def inner_path(e):
     e = strip_ref(e)
-    return e[0] == "path" and e[2][-1:] == ("inner",) and e[1] in ("src", "_1")
+    return e[0] == "path" and e[2][-1:] == ("inner",)          # the connection slot of the TcpStream argument (any name)
 
 
 def run(ctx, chk):
